@@ -1590,8 +1590,16 @@ impl<'a, 'b, W: Write> Serializer for &'a mut YamlSerializer<'b, W> {
             // the newline later in SeqSer::serialize_element to keep empty sequences inline.
             // An anchor ends the current line (`- &a1`), so the first inner dash can then no
             // longer stay inline: it starts a new, indented line like the following ones.
-            let anchor_ends_line = self.pending_anchor_id.is_some();
-            self.write_anchor_for_complex_node()?;
+            // A sequence known to be empty is written as `&a1 []` on the current line.
+            let anchored_empty =
+                _len == Some(0) && self.empty_as_braces && self.pending_anchor_id.is_some();
+            let anchor_ends_line = self.pending_anchor_id.is_some() && !anchored_empty;
+            if anchored_empty {
+                self.write_space_if_pending()?;
+                self.write_scalar_prefix_if_anchor()?;
+            } else {
+                self.write_anchor_for_complex_node()?;
+            }
             if nested_on_own_line && !anchor_ends_line {
                 self.newline()?;
                 self.pending_inline_map = false;
